@@ -18,6 +18,7 @@ import (
 	"strings"
 	"sync"
 	"time"
+	"unsafe"
 
 	"github.com/smallnest/rpcx/client"
 	"github.com/smallnest/rpcx/protocol"
@@ -95,13 +96,14 @@ type handlerEnv struct {
 	entered  chan int // ids of handlers that started
 	finished chan int
 	invoked  []int
-	ptrs     map[int][2]uintptr // id -> (arg ptr, reply ptr) for pool-sharing checks
+	owners   map[unsafe.Pointer]int
+	shared   []string
 	meta     map[int]map[string]string
 }
 
 func newHandlerEnv(gated bool) *handlerEnv {
 	return &handlerEnv{gated: gated, gates: map[int]chan struct{}{}, entered: make(chan int, 256), finished: make(chan int, 256),
-		ptrs: map[int][2]uintptr{}, meta: map[int]map[string]string{}}
+		meta: map[int]map[string]string{}}
 }
 
 func (h *handlerEnv) gate(id int) chan struct{} {
@@ -167,20 +169,47 @@ func (t *Arith) Mul(ctx context.Context, a *SArgs, r *SReply) error {
 type ArithP struct{ h *handlerEnv }
 
 func (t *ArithP) Mul(ctx context.Context, a *PArgs, r *PReply) error {
-	// the reply object must arrive zeroed and must not be shared while the handler runs
-	before := *r
-	c, err := t.h.run(a.Id, a.A, a.B, a.Mode, a.Text)
-	if before != (PReply{}) {
-		return fmt.Errorf("dirty-reply-object %+v", before)
-	}
+	// pooled objects: must arrive clean and must be owned by this request alone while it runs
+	id := a.Id
 	if *r != (PReply{}) {
-		return fmt.Errorf("reply-object-modified-while-in-use %+v", *r)
+		return fmt.Errorf("dirty-reply-object %+v", *r)
+	}
+	t.h.own(id, unsafe.Pointer(a), unsafe.Pointer(r))
+	defer t.h.disown(unsafe.Pointer(a), unsafe.Pointer(r))
+	r.Id = id // early write: a second owner of the same object would see or clobber it
+	c, err := t.h.run(id, a.A, a.B, a.Mode, a.Text)
+	if r.Id != id || r.C != 0 || a.Id != id {
+		return fmt.Errorf("pooled-object-modified-while-in-use reply=%+v args.Id=%d want Id=%d", *r, a.Id, id)
 	}
 	if err != nil {
+		r.Id = 0
 		return err
 	}
-	r.Id, r.C = a.Id, c
+	r.C = c
 	return nil
+}
+
+// ownership of pooled objects by in-flight requests
+func (h *handlerEnv) own(id int, ptrs ...unsafe.Pointer) {
+	h.mu.Lock()
+	defer h.mu.Unlock()
+	if h.owners == nil {
+		h.owners = map[unsafe.Pointer]int{}
+	}
+	for _, p := range ptrs {
+		if other, ok := h.owners[p]; ok {
+			h.shared = append(h.shared, fmt.Sprintf("requests %d and %d hold the same pooled object %p at the same time", other, id, p))
+		}
+		h.owners[p] = id
+	}
+}
+
+func (h *handlerEnv) disown(ptrs ...unsafe.Pointer) {
+	h.mu.Lock()
+	defer h.mu.Unlock()
+	for _, p := range ptrs {
+		delete(h.owners, p)
+	}
 }
 
 type srvRig struct {
